@@ -2,6 +2,7 @@ package srvh
 
 import (
 	"fmt"
+	"strings"
 
 	"github.com/rminnich/go9p"
 )
@@ -84,6 +85,10 @@ func (c *Ctl) Answer(r *go9p.SrvReq, cmd Cmd) {
 		r.RespondError(&go9p.Error{Err: fmt.Sprintf("E%d", cmd.Payload), Errornum: 77})
 		return
 	}
+	if cmd.Out == "longerr" {
+		r.RespondError(&go9p.Error{Err: "E1" + strings.Repeat("0", 300), Errornum: 77})
+		return
+	}
 	q := &go9p.Qid{Type: cmd.QType, Path: cmd.Payload}
 	tc := r.Tc
 	switch tc.Type {
@@ -119,7 +124,11 @@ func (c *Ctl) Answer(r *go9p.SrvReq, cmd Cmd) {
 	case go9p.Tremove:
 		r.RespondRremove()
 	case go9p.Tstat:
-		r.RespondRstat(&go9p.Dir{Name: "f", Length: cmd.Payload, Uid: "u", Gid: "g", Muid: "m"})
+		name := "f"
+		if cmd.N > 1 {
+			name = strings.Repeat("n", cmd.N)
+		}
+		r.RespondRstat(&go9p.Dir{Name: name, Length: cmd.Payload, Uid: "u", Gid: "g", Muid: "m"})
 	case go9p.Twstat:
 		r.RespondRwstat()
 	default:
